@@ -18,8 +18,10 @@ import (
 	"fmt"
 	"math/rand"
 	"os"
+	"runtime"
 	"sync"
 	"testing"
+	"time"
 
 	"verifc20/stringx"
 	kit "verifc20/verifkit"
@@ -169,8 +171,30 @@ func TestVerifC20Concurrent(t *testing.T) {
 			mu.Unlock()
 		}(g)
 	}
+	// watchdog: a conversion whose shared state got corrupted may loop or allocate without bound;
+	// the stage is bounded in time and memory and says so in the log (checks/c20.py decides:
+	// together with a race report it is part of that finding, alone it is a harness problem)
+	done := make(chan struct{})
+	go func() {
+		limit := time.Duration(kit.EnvInt("VERIF_CONC_SECONDS", 240)) * time.Second
+		t0 := time.Now()
+		for {
+			select {
+			case <-done:
+				return
+			case <-time.After(200 * time.Millisecond):
+			}
+			var ms runtime.MemStats
+			runtime.ReadMemStats(&ms)
+			if ms.HeapAlloc > 2<<30 || time.Since(t0) > limit {
+				fmt.Fprintf(os.Stderr, "VERIF-WATCHDOG: concurrent stage stopped: heap=%dMB elapsed=%s\n", ms.HeapAlloc>>20, time.Since(t0))
+				os.Exit(3)
+			}
+		}
+	}()
 	close(start)
 	wg.Wait()
+	close(done)
 	steps := int(calls[0] + calls[1] + calls[2] + calls[3])
 	rep.Count("concurrent_camel", int(calls[0]))
 	rep.Count("concurrent_snake", int(calls[1]))
